@@ -6,9 +6,11 @@ package props
 
 import (
 	"fmt"
+	"math/big"
 	"testing"
 
 	"github.com/zenon-network/go-zenon/chain/nom"
+	"github.com/zenon-network/go-zenon/common/types"
 
 	"verifharness/pbt"
 	"verifharness/sim"
@@ -344,6 +346,35 @@ func TestC16(t *testing.T) {
 			lenX = int(e.topX - e.forkAt)
 			if e.forkAt == e.topY {
 				lenX = 0 // Y is a prefix of the follower's chain: nothing to deliver as a fork
+			}
+		}
+		// the extra block of the "extra-account-block" fault must be valid on its own wherever it is delivered: a block
+		// of an account that none of the branches touched since the fork point, acknowledging the fork point
+		if fm, err := h.A.Chain.GetFrontierMomentumStore().GetMomentumByHeight(e.forkAt); err == nil && fm != nil {
+			heightAt := func(n *sim.Node, u types.Address) uint64 {
+				return n.Chain.GetFrontierAccountStore(u).Identifier().Height
+			}
+			base := h.A.Chain.GetMomentumStore(fm.Identifier())
+			for _, u := range h.Users {
+				kp := h.W.Keys.ByAddr[u]
+				if kp == nil || base == nil {
+					continue
+				}
+				h0 := base.GetAccountStore(u).Identifier().Height
+				if heightAt(h.A, u) != h0 || (e.a2 != nil && e.topY > 0 && heightAt(e.a2, u) != h0) {
+					continue
+				}
+				var tx *nom.AccountBlockTransaction
+				func() {
+					defer func() { _ = recover() }()
+					tx, err = h.A.Sup.GenerateFromTemplate(&nom.AccountBlock{BlockType: nom.BlockTypeUserSend, Address: u, ToAddress: h.Users[0], TokenStandard: types.ZnnTokenStandard,
+						Amount: big.NewInt(0), MomentumAcknowledged: fm.Identifier()}, kp.Signer)
+				}()
+				if err == nil && tx != nil {
+					e.extra = tx.Block
+					c.Class("extra-block-valid-everywhere")
+					break
+				}
 			}
 		}
 		c.Note("prefix to %d, follower at %d (own branch of %d), producer at %d, competing branch to %d", e.forkAt, e.topX, lenX, e.topA, e.topY)
